@@ -116,6 +116,18 @@ impl TryFrom<u16> for SignificantInstr {
     }
 }
 
+/// Verification hook: how the debugger classifies an instruction word — 0 = nothing special,
+/// 1 = return (`RET`/`RETS`), 2 = `HALT` — and whether `step` treats it as a subroutine call.
+#[cfg(feature = "verif")]
+pub fn verif_classify(instr: u16) -> (u8, bool) {
+    let significant = match SignificantInstr::try_from(instr) {
+        Ok(SignificantInstr::Return) => 1,
+        Ok(SignificantInstr::Halt) => 2,
+        Err(()) => 0,
+    };
+    (significant, Debugger::is_subroutine_call(instr))
+}
+
 impl Debugger {
     /// Must only be called *once* per process.
     pub(super) fn new(
